@@ -30,7 +30,7 @@ func c22(x *ctx) {
 		"Oracles: -i prints exactly one signature hint per method at its def row tagged c/ or i/ with the visibility in effect (instance methods); --define --row=<call row> contains a record with the method's def row; " +
 		"--hover --row=<call row> prints a %<method>::: record. non-trivial = all"
 	r.Assumptions = []string{"visibility tag of class methods is not checked (Ruby: always public; the statement says 'in effect at the definition')"}
-	kinds := []string{"plain", "private", "protected", "public", "def-self", "class-self", "endless", "multiline"}
+	kinds := []string{"plain", "private", "protected", "public", "def-self", "class-self", "endless", "multiline", "endless-multiline"}
 	maxLen := 3
 	if thorough {
 		maxLen = 4
@@ -104,6 +104,12 @@ func c22(x *ctx) {
 				case "endless":
 					line(ind + "  def " + name + "(a) = a")
 					ms = append(ms, c22method{name: name, defRow: row, vis: vis, nparams: 1, kind: k})
+				case "endless-multiline":
+					line(ind + "  def " + name + "(")
+					ms = append(ms, c22method{name: name, defRow: row, vis: vis, nparams: 2, kind: k})
+					line(ind + "    a,")
+					line(ind + "    b")
+					line(ind + "  ) = a")
 				case "multiline":
 					line(ind + "  def " + name + "(")
 					ms = append(ms, c22method{name: name, defRow: row, vis: vis, nparams: 2, kind: k})
